@@ -3,7 +3,7 @@ from .. import core
 from ..engines import jump
 
 PROP = "C15"
-BUDGET = {"quick": 1200, "thorough": 30000}
+BUDGET = {"quick": 2000, "thorough": 40000}
 ALARM_S = 900
 RULE = ("seeded random event models x grids (uniform / non-uniform, array / list / tuple, starting at t0 or later, some "
         "extending past extinction; in half of the exact runs extra requested times are placed 1e-5 .. 3e-12 (relative) before or after actual event times of the underlying path: fault G.near_event) x {exact, tau} x R seam; the identical stream is run once with a scalar horizon (the "
